@@ -162,9 +162,32 @@ class Ambiguous(Unorderable):
         return "A#%r" % (self.uid,)
 
 
+class Anything:
+    """An item that answers True to every ``==`` (a wildcard like ``unittest.mock.ANY``): data like any other"""
+
+    __slots__ = ("uid", "__weakref__")
+
+    def __init__(self, uid):
+        self.uid = uid
+
+    def __eq__(self, other):
+        return True
+
+    def __ne__(self, other):
+        return False
+
+    def __hash__(self):
+        return 1
+
+    def __repr__(self):
+        return "ANY#%r" % (self.uid,)
+
+
 def ident(x):
     """Deterministic identity of a value: the uid for items, structure for containers"""
     t = type(x)
+    if t is Anything:
+        return ("anything", x.uid)
     if t is Item or t is Unorderable or t is Ambiguous:
         return x.uid
     if t is tuple:
@@ -675,8 +698,16 @@ class AIterCls:
         src = self.src
         src.n_aclose += 1
         src.world.log.append(("aclose", src.name))
-        for _ in range(src.plan.aclose_suspends):
-            await src.world.sim.suspend(PAUSE, None, src.name)
+        if src.in_flight:
+            # closed while a pull (or another close) of it is still in flight: two users inside the source at once
+            src.overlaps += 1
+            src.world.log.append(("overlap", src.name))
+        src.in_flight += 1
+        try:
+            for _ in range(src.plan.aclose_suspends):
+                await src.world.sim.suspend(PAUSE, None, src.name)
+        finally:
+            src.in_flight -= 1
         src.closed = True
         return True if src.plan.aclose_mode == 1 else None
 
